@@ -41,6 +41,7 @@ TAGS = {
     'update_stats': {'observer', 'stream'},
     'user': {'user', 'stream'},
     'nested_edit': {'user', 'stream', 'rowwise'},
+    'truncate': {'truncating'},
     'iterable': {'source', 'restructure', 'stream'},
     'sources': {'source', 'restructure', 'stream'},
     'load_tuple': {'source', 'restructure', 'stream'},
@@ -393,6 +394,11 @@ def gen_nested_edit(rng, d, g):
     return {'step': 'nested_edit', 'tag': g.fresh('seen')}
 
 
+def gen_truncate(rng, d, g):
+    # a user rows-function that stops pulling its input early (a consumer that stops reading)
+    return {'step': 'truncate', 'keep': rng.choice([0, 1, 2, 5])}
+
+
 def gen_iterable(rng, d, g):
     n = rng.choice([0, 1, 3, 7])
     return {'step': 'iterable', 'rows': [[9000 + 100 * g.n + i, 'it%d' % i] for i in range(n)], 'id_base': 0}
@@ -414,7 +420,7 @@ GENS = {k[4:]: v for k, v in list(globals().items()) if k.startswith('gen_') and
 
 
 def gen_step(rng, d, g, weights=None):
-    kinds = [k for k in GENS if k not in g.exclude and (g.tags is None or TAGS[k] & g.tags)]
+    kinds = [k for k in GENS if k not in g.exclude and ((g.tags is None and k != 'truncate') or (g.tags is not None and TAGS[k] & g.tags))]
     for _ in range(12):
         k = rng.choice(kinds)
         try:
@@ -634,6 +640,13 @@ def build(spec, env):
         return [DF.finalizer(cb)]
     if s == 'update_stats':
         return [DF.update_stats(dict(spec['stats']))]
+    if s == 'truncate':
+        import itertools
+        keep = spec['keep']
+
+        def f(rows):
+            yield from itertools.islice(rows, keep)
+        return [f]
     if s == 'nested_edit':
         tag = spec['tag']
 
